@@ -16,10 +16,10 @@ PROP = "C12"
 
 def hooks_for(rng, p):
     mnems = sorted({e["mnem"] for e in p.table.values() if e["mnem"]})
-    foreign = [m for m in ("Nop", "Mov", "Ret", "Call", "Jmp", "Je", "Syscall", "Int", "Int3", "Cmp", "Lea", "Push") if m not in mnems]
+    foreign = [m for m in xc.ALL_MNEMONICS if m not in mnems]          # every supported mnemonic the program does not contain
     hs = []
     for hid in range(1, rng.choice([1, 2, 3, 4, 5, 6]) + 1):
-        m = rng.choice(mnems) if (rng.random() < 0.8 or not foreign) else rng.choice(foreign)
+        m = rng.choice(mnems) if (rng.random() < 0.65 or not foreign) else rng.choice(foreign)
         if rng.random() < 0.4 and hs:
             m = hs[-1]["mnem"]                      # several hooks on one mnemonic
         ret = rng.choice(["unhandled", "unhandled", "unhandled", "handled", "error"])
